@@ -108,12 +108,22 @@ Qed.
 Lemma abs_dclose : forall cfg s d,
   abs (dclose cfg s d) = astep cfg (abs s) (DClose d).
 Proof.
-  intros. unfold dclose, dtag_open. cbn [astep]. cbn [abs a_dst a_peers a_prot a_now].
-  destruct (Nat.ltb d (length (c_dtags cfg)) && negb (snd (get (0, true) (dst s) d))); cbn [negb]; [|reflexivity].
+  intros. unfold dclose, dtag_open, dtag_pending. cbn [astep]. cbn [abs a_dst a_peers a_prot a_now].
+  destruct ((Nat.ltb d (length (c_dtags cfg)) && negb (snd (get (0, true) (dst s) d)))
+            || (Nat.ltb d (length (c_dtags cfg)) && snd (get (0, true) (dst s) d) && (fst (get (0, true) (dst s) d) =? -1)));
+    cbn [negb]; [|reflexivity].
   unfold abs. cbn [peers prot now dst]. f_equal. rewrite !map_map. apply map_ext.
   intros pi. unfold abs_peer at 2. cbn [a_known]. destruct (p_tracked pi) eqn:Etr; [|reflexivity].
   unfold with_dec, abs_peer. cbn. rewrite Etr. reflexivity.
 Qed.
+
+Lemma abs_dcloseq : forall cfg s d, abs (dcloseq cfg s d) = astep cfg (abs s) (DCloseQ d).
+Proof.
+  intros. unfold dcloseq, dtag_open. cbn [astep abs a_dst]. destruct (_ && _); reflexivity.
+Qed.
+
+Lemma abs_dregister : forall cfg s d acc, abs (dregister cfg s d acc) = astep cfg (abs s) (DRegister d acc).
+Proof. intros. unfold dregister. cbn [astep abs a_dst a_now]. destruct (_ && _); reflexivity. Qed.
 
 Lemma abs_tick : forall cfg s t, abs (tick cfg s t) = atick cfg (abs s) t.
 Proof.
@@ -154,4 +164,6 @@ Proof.
   - reflexivity.
   - reflexivity.
   - cbn [astep]. apply abs_advance.
+  - apply abs_dcloseq.
+  - apply abs_dregister.
 Qed.
